@@ -1107,7 +1107,7 @@ class DataFrameSchema(Generic[TDataObject], BaseSchema):
 
         # explcit check for an empty list
         if level == []:
-            return self
+            return copy.deepcopy(self)
 
         new_schema = copy.deepcopy(self)
 
